@@ -214,75 +214,44 @@ theorem updateWaiter_inv (db : DB) (w w' : Waiter) (h : DBInv db) : DBInv (updat
   unfold updateWaiter
   exact setKey_inv h (waiters_inv (getKey_inv h _) _ _)
 
+theorem rearmWaiter_inv (db : DB) (w : Waiter) (h : DBInv db) : DBInv (rearmWaiter db w) := by
+  unfold rearmWaiter; exact updateWaiter_inv _ _ _ (h.of_keys_eq rfl)
+
+theorem rearmHold_inv (db : DB) (hd : Hold) (h : DBInv db) : DBInv (rearmHold db hd) := by
+  unfold rearmHold; exact updateHoldIn_inv _ _ _ rfl (h.of_keys_eq rfl)
+
+theorem foldl_inv {α β} (f : DB × β → α → DB × β) (hf : ∀ acc a, DBInv acc.1 → DBInv (f acc a).1)
+    (l : List α) (acc : DB × β) (h : DBInv acc.1) : DBInv (l.foldl f acc).1 := by
+  induction l generalizing acc with
+  | nil => exact h
+  | cons a as ih => simp only [List.foldl_cons]; exact ih _ (hf acc a h)
+
+theorem timeoutStep_inv (acc : DB × List Waiter) (w : Waiter) (h : DBInv acc.1) : DBInv (timeoutStep acc w).1 := by
+  unfold timeoutStep; split
+  · exact rearmWaiter_inv _ _ h
+  · exact h
+
+theorem expireStep_inv (acc : DB × List Hold) (hd : Hold) (h : DBInv acc.1) : DBInv (expireStep acc hd).1 := by
+  unfold expireStep; split
+  · exact rearmHold_inv _ _ h
+  · exact h
+
+theorem fireTimeoutStep_inv (acc : DB × List Reply) (w : Waiter) (h : DBInv acc.1) : DBInv (fireTimeoutStep acc w).1 := by
+  unfold fireTimeoutStep; exact fireTimeout_inv _ _ h
+
+theorem fireExpireStep_inv (acc : DB × List Reply) (hd : Hold) (h : DBInv acc.1) : DBInv (fireExpireStep acc hd).1 := by
+  unfold fireExpireStep
+  split
+  · rename_i h' hf; exact fireExpire_inv _ _ _ (List.mem_of_find?_eq_some hf) h
+  · exact h
+
 theorem sweepTimeout_inv (db : DB) (c : Nat) (h : DBInv db) : DBInv (sweepTimeout db c).1 := by
-  unfold sweepTimeout
-  simp only []
-  -- pass 1
-  have p1 : ∀ (l : List Waiter) (acc : DB × List Waiter), DBInv acc.1 →
-      DBInv (l.foldl (fun (acc : DB × List Waiter) w =>
-        if w.timeoutT > acc.1.now then
-          (updateWaiter { acc.1 with seq := acc.1.seq + 1 } w
-            { w with timeoutT := (wheelAdd acc.1.tCheck acc.1.seq w.timeoutT (w.sched.checked + 1)).1,
-                     sched := (wheelAdd acc.1.tCheck acc.1.seq w.timeoutT (w.sched.checked + 1)).2 }, acc.2)
-        else (acc.1, acc.2 ++ [w])) acc).1 := by
-    intro l
-    induction l with
-    | nil => intro acc ha; exact ha
-    | cons w ws ih =>
-      intro acc ha
-      simp only [List.foldl_cons]
-      apply ih
-      split
-      · exact updateWaiter_inv _ _ _ (ha.of_keys_eq rfl)
-      · exact ha
-  have p2 : ∀ (l : List Waiter) (acc : DB × List Reply), DBInv acc.1 →
-      DBInv (l.foldl (fun (acc : DB × List Reply) w => ((fireTimeout acc.1 w).1, acc.2 ++ (fireTimeout acc.1 w).2)) acc).1 := by
-    intro l
-    induction l with
-    | nil => intro acc ha; exact ha
-    | cons w ws ih =>
-      intro acc ha
-      simp only [List.foldl_cons]
-      exact ih _ (fireTimeout_inv _ _ ha)
-  exact p2 _ _ (p1 _ (db, []) h)
+  unfold sweepTimeout timeoutPass1
+  exact foldl_inv _ fireTimeoutStep_inv _ _ (foldl_inv _ timeoutStep_inv _ _ h)
 
 theorem sweepExpire_inv (db : DB) (c : Nat) (h : DBInv db) : DBInv (sweepExpire db c).1 := by
-  unfold sweepExpire
-  simp only []
-  have p1 : ∀ (l : List Hold) (acc : DB × List Hold), DBInv acc.1 →
-      DBInv (l.foldl (fun (acc : DB × List Hold) hd =>
-        if hd.expT > acc.1.now then
-          (updateHoldIn { acc.1 with seq := acc.1.seq + 1 } hd
-            { hd with expT := (wheelAdd acc.1.eCheck acc.1.seq hd.expT (hd.sched.checked + 1)).1,
-                      sched := (wheelAdd acc.1.eCheck acc.1.seq hd.expT (hd.sched.checked + 1)).2 }, acc.2)
-        else (acc.1, acc.2 ++ [hd])) acc).1 := by
-    intro l
-    induction l with
-    | nil => intro acc ha; exact ha
-    | cons w ws ih =>
-      intro acc ha
-      simp only [List.foldl_cons]
-      apply ih
-      split
-      · exact updateHoldIn_inv _ _ _ rfl (ha.of_keys_eq rfl)
-      · exact ha
-  have p2 : ∀ (l : List Hold) (acc : DB × List Reply), DBInv acc.1 →
-      DBInv (l.foldl (fun (acc : DB × List Reply) hd =>
-        match (acc.1.getKey hd.cmd.key).holders.find? (·.hid == hd.hid) with
-        | some h' => ((fireExpire acc.1 hd.cmd.key h').1, acc.2 ++ (fireExpire acc.1 hd.cmd.key h').2)
-        | none => (acc.1, acc.2)) acc).1 := by
-    intro l
-    induction l with
-    | nil => intro acc ha; exact ha
-    | cons w ws ih =>
-      intro acc ha
-      simp only [List.foldl_cons]
-      apply ih
-      split
-      · rename_i h' hf
-        exact fireExpire_inv _ _ _ (List.mem_of_find?_eq_some hf) ha
-      · exact ha
-  exact p2 _ _ (p1 _ (db, []) h)
+  unfold sweepExpire expirePass1
+  exact foldl_inv _ fireExpireStep_inv _ _ (foldl_inv _ expireStep_inv _ _ h)
 
 theorem opTick_inv (db : DB) (h : DBInv db) : DBInv (opTick db).1 := by
   unfold opTick
